@@ -6,6 +6,9 @@
                    the start of every simulated run through runtime.verifSetRand (linkname, zz_verif/simrt);
                    runtime.verifGoid returns the current goroutine id (cheap identity for the baton check)
   runtime/alg.go   the process-wide hash keys are constants (per-map seeds still vary through rand())
+  runtime/malloc.go  mallocgcLarge notes the size of the largest single allocation (above 32 KiB) since the last call of
+                   runtime.verifMaxAlloc (linkname): the simulator's view of the allocator, so that a few bytes on the
+                   wire that make the server reserve gigabytes are seen without having to run out of memory
 Without this, qryn's `for k := range someMap` makes schedules and failures depend on an order the simulator does
 not control, and a replay file does not replay. Prints the overlay path; exits 3 if the toolchain's sources do not
 look as expected (the caller then builds without overlay and simrt's seeding hook is compiled out)."""
@@ -15,9 +18,20 @@ def main():
     d = os.path.abspath(sys.argv[1])
     os.makedirs(d, exist_ok=True)
     gr = subprocess.run(["go", "env", "GOROOT"], capture_output=True, text=True).stdout.strip()
-    rp, ap = gr + "/src/runtime/rand.go", gr + "/src/runtime/alg.go"
+    rp, ap, mp = gr + "/src/runtime/rand.go", gr + "/src/runtime/alg.go", gr + "/src/runtime/malloc.go"
     try:
-        r, a = open(rp).read(), open(ap).read()
+        r, a, m = open(rp).read(), open(ap).read(), open(mp).read()
+        head = "func mallocgcLarge(size uintptr, typ *_type, needzero bool) (unsafe.Pointer, uintptr) {\n"
+        assert m.count(head) == 1
+        m = m.replace(head, head + "\tif size > verifLargest {\n\t\tverifLargest = size\n\t}\n", 1)
+        m += '''
+var verifLargest uintptr
+
+// verifMaxAlloc returns the size of the largest single allocation since its last call (zz_verif/simrt, linkname).
+//
+//go:linkname verifMaxAlloc
+func verifMaxAlloc() uintptr { n := verifLargest; verifLargest = 0; return n }
+'''
         i, j = r.index("func rand() uint64 {"), r.index("//go:linkname maps_rand")
         new = '''func rand() uint64 {
 	// verif: deterministic sequence, re-seeded by the simulator at the start of every simulated run
@@ -56,7 +70,8 @@ func verifGoid() uint64 { return getg().goid }
         sys.exit(3)
     open(d + "/rand.go", "w").write(r)
     open(d + "/alg.go", "w").write(a)
-    json.dump({"Replace": {rp: d + "/rand.go", ap: d + "/alg.go"}}, open(d + "/overlay.json", "w"))
+    open(d + "/malloc.go", "w").write(m)
+    json.dump({"Replace": {rp: d + "/rand.go", ap: d + "/alg.go", mp: d + "/malloc.go"}}, open(d + "/overlay.json", "w"))
     print(d + "/overlay.json")
 
 main()
